@@ -91,6 +91,7 @@ type gen struct {
 	passiveE    map[byte][]int
 	nData       int
 	nElem       int
+	fav         map[byte][]*Op // favourite instructions of this module, by result type
 	funcTable   int            // index of a funcref table or -1
 	initSlots   map[int]uint32 // initial contents of the funcref table written by the active element segment
 	fuelIdx     uint32
@@ -140,6 +141,28 @@ func Generate(t *rapid.T, cfg Config) *Module {
 			g.ops[op.Results[0]] = append(g.ops[op.Results[0]], op)
 		} else if len(op.Results) == 0 {
 			g.vops = append(g.vops, op)
+		}
+	}
+	// favourite instructions of this module: a handful of table-driven instructions that are
+	// chosen far more often than the rest, so that one instruction is used several times, in
+	// several functions of one module (per-module compiler state such as constant pools, label
+	// caches and scratch registers is only exercised by repeated use)
+	if g.chance(60, "hasfav") {
+		var all []*Op
+		for _, ops := range [][]*Op{g.ops[I32], g.ops[I64], g.ops[F32], g.ops[F64], g.ops[V128], g.ops[V128]} {
+			for _, op := range ops {
+				if op.Imm == ImmNone || op.Imm == ImmLane || op.Imm == ImmShuffle {
+					all = append(all, op)
+				}
+			}
+		}
+		if len(all) > 0 {
+			g.fav = map[byte][]*Op{}
+			for i, n := 0, g.rng(1, 6, "nfav"); i < n; i++ {
+				op := all[g.intn(len(all), "fav")]
+				g.fav[op.Results[0]] = append(g.fav[op.Results[0]], op)
+			}
+			g.stat("favourite-instructions")
 		}
 	}
 	g.module()
@@ -1954,6 +1977,10 @@ func (g *gen) numeric(ty byte, depth int) {
 	}
 	if len(nc) == 0 {
 		g.leaf(ty)
+		return
+	}
+	if f := g.fav[ty]; len(f) > 0 && g.chance(35, "usefav") {
+		g.tableOpDepth(f[g.intn(len(f), "favop")], depth-1)
 		return
 	}
 	op := nc[g.intn(len(nc), "op")]
